@@ -722,7 +722,7 @@ def add_general_blades(vals, ra, rb, rs):
     if m: return m
     lo = a[3] + b[3]
     if not (lo <= s[3] <= lo + 4): return 'sum blade %d outside [%d, %d]' % (s[3], lo, lo + 4)
-    if s[3] == lo + 4 and v(s[2]) != 0: return 'sum blade is a full turn above the operand blades with non-zero remainder'
+    if s[3] == lo + 4 and v(s[2]) > TOL + 2 * _blade_term(lo + 4): return 'sum blade is a full turn above the operand blades with non-zero remainder %s' % mp.nstr(v(s[2]), 5)
     return None
 
 @pred
@@ -849,11 +849,11 @@ def proj_rej_laws(vals, ra, rb, rp, rr, rsum):
     ma = v(a[1])
     ax, ay = cart(a); sx, sy = cart(s)
     bl = a[3] + b[3] + 8
-    if mp.sqrt((ax - sx) ** 2 + (ay - sy) ** 2) > ma * (4 * SQEPS + 4 * TOL + 4 * _blade_term(2 * bl)):
+    if mp.sqrt((ax - sx) ** 2 + (ay - sy) ** 2) > ma * (4 * SQEPS + 4 * TOL + 4 * _blade_term(2 * bl)) + 2 * TOL:
         return 'projection + rejection does not reproduce a: (%s,%s) vs (%s,%s)' % (mp.nstr(sx, 12), mp.nstr(sy, 12), mp.nstr(ax, 12), mp.nstr(ay, 12))
-    if abs(v(p[1]) ** 2 + v(rj[1]) ** 2 - ma * ma) > ma * ma * (8 * TOL + 64 * EPS + 8 * _blade_term(bl)):
+    if abs(v(p[1]) ** 2 + v(rj[1]) ** 2 - ma * ma) > ma * ma * (8 * TOL + 64 * EPS + 8 * _blade_term(bl)) + 4 * TOL * ma + 4 * TOL * TOL:
         return '|proj|^2 + |rej|^2 = %s, |a|^2 = %s' % (mp.nstr(v(p[1]) ** 2 + v(rj[1]) ** 2, 17), mp.nstr(ma * ma, 17))
-    if v(rj[1]) > mp.mpf('1e-5') * ma:
+    if v(rj[1]) > mp.mpf('1e-5') * ma and v(rj[1]) > mp.mpf('1e-4'):
         c = mp.cos(direction(_A(rj)) - direction(_A(b)))
         if abs(c) > mp.mpf('2e-9') + 4 * SQEPS * ma / v(rj[1]) * mp.mpf('1e-3') + 8 * _blade_term(bl):
             return 'rejection not orthogonal to b: cosine %s' % mp.nstr(c, 5)
@@ -946,7 +946,7 @@ def mags_close(vals, r1, r2, rscale, kind):
     if _isP(x) or _isP(y): return 'unexpected panic'
     scale = sum((v(vals[r][1]) for r in rscale), mp.mpf(0))
     bl = sum((vals[r][3] for r in rscale), 0)
-    tol = (8 * SQEPS + 4 * TOL + 4 * _blade_term(bl + 4)) * scale
+    tol = (8 * SQEPS + 4 * TOL + 4 * _blade_term(bl + 4)) * scale + 2 * TOL      # + the absolute 1e-10 cancellation threshold of Geonum addition
     if abs(v(x[1]) - v(y[1])) > tol: return '%s: %s vs %s' % (kind, mp.nstr(v(x[1]), 17), mp.nstr(v(y[1]), 17))
     return None
 
@@ -954,7 +954,7 @@ def mags_close(vals, r1, r2, rscale, kind):
 def triangle(vals, rab, rbc, rac, rscale):
     scale = sum((v(vals[r][1]) for r in rscale), mp.mpf(0))
     slack = v(vals[rab][1]) + v(vals[rbc][1]) - v(vals[rac][1])
-    if slack < -(8 * SQEPS + 4 * TOL) * scale: return 'triangle inequality violated by %s' % mp.nstr(-slack, 5)
+    if slack < -((8 * SQEPS + 4 * TOL) * scale + 3 * TOL): return 'triangle inequality violated by %s' % mp.nstr(-slack, 5)
     return None
 
 @pred
@@ -977,10 +977,10 @@ def invert_laws(vals, rp, rc, radbits, roff, rinv):
     d2 = mp.sqrt((qx - cx) ** 2 + (qy - cy) ** 2)
     if d1 == 0: return None
     scale = v(p[1]) + v(c[1])
-    rel1 = (4 * SQEPS + 4 * TOL) * (scale / d1)                         # relative error of |p - c|
+    rel1 = ((4 * SQEPS + 4 * TOL) * scale + 2 * TOL) / d1                # relative error of |p - c| (incl. the absolute 1e-10 cancellation threshold)
     want2 = rad * rad / d1
     scale2 = v(c[1]) + want2
-    abs2 = (4 * SQEPS + 4 * TOL) * scale2 + want2 * 2 * rel1             # absolute error allowed on |p' - c|
+    abs2 = (4 * SQEPS + 4 * TOL) * scale2 + 2 * TOL + want2 * 2 * rel1   # absolute error allowed on |p' - c|
     if rel1 > mp.mpf('0.05'): return None                                 # ill-conditioned: nothing to check
     if abs(d2 - want2) > abs2 + 64 * EPS * want2:
         return "|p'-c||p-c| = %s, r^2 = %s" % (mp.nstr(d1 * d2, 12), mp.nstr(rad * rad, 12))
@@ -1354,7 +1354,7 @@ def float_close_rel(vals, r1, r2, rscale, k):
     if not (fb.is_finite_bits(a[1]) and fb.is_finite_bits(b[1])): return 'non-finite area'
     scale = sum((v(vals[r][1]) for r in rscale), mp.mpf(0))
     bl = max([vals[r][3] for r in rscale] + [1])
-    if abs(v(a[1]) - v(b[1])) > (k * SQEPS + 8 * TOL + 8 * _blade_term(bl)) * scale * scale: return 'areas differ: %s vs %s' % (mp.nstr(v(a[1]), 17), mp.nstr(v(b[1]), 17))
+    if abs(v(a[1]) - v(b[1])) > (k * SQEPS + 8 * TOL + 8 * _blade_term(bl)) * scale * scale + 8 * TOL * scale + 8 * TOL * TOL: return 'areas differ: %s vs %s' % (mp.nstr(v(a[1]), 17), mp.nstr(v(b[1]), 17))
     return None
 
 @pred
@@ -1367,18 +1367,25 @@ def shoelace(vals, rarea, rps):
     want = abs(s) / 2
     scale = sum((v(vals[r][1]) for r in rps), mp.mpf(0))
     got = v(vals[rarea][1])
-    if abs(got - want) > (16 * SQEPS + 8 * TOL) * scale * scale: return 'quadrilateral area %s, shoelace area %s' % (mp.nstr(got, 17), mp.nstr(want, 17))
+    if abs(got - want) > (16 * SQEPS + 8 * TOL) * scale * scale + 8 * TOL * scale + 8 * TOL * TOL: return 'quadrilateral area %s, shoelace area %s' % (mp.nstr(got, 17), mp.nstr(want, 17))
     return None
 
 @pred
 def add_general_or_fast(vals, ra, rb, rs):
-    """blade history of a sum whatever path applies: identical angles keep the angle; otherwise the blade
-    is at least the sum of the operand blades (cancellation: exactly the sum) and at most 4 more"""
+    """blade history of a sum whatever path applies.  identical angles keep the angle; exactly opposite
+    follow the opposite policy; pairs within 1e-9 rad of either boundary but not on it may follow
+    either policy (the library's equality is tolerant); everything else follows the general bounds"""
     a, b, s = vals[ra], vals[rb], vals[rs]
     m = _ok_geo(s)
     if m: return m
-    if (a[2], a[3]) == (b[2], b[3]):
-        return None if (s[2], s[3]) == (a[2], a[3]) else 'identical angles but the sum has angle %r' % (_A(s),)
-    opposite = abs(a[3] - b[3]) == 2 and v(a[2]) == v(b[2])
-    if opposite: return add_opposite(vals, ra, rb, rs)
+    gap = abs(v(a[2]) - v(b[2]))
+    if (a[2], a[3]) == (b[2], b[3]) or (a[3] == b[3] and gap == 0):
+        return None if (s[3] == a[3] and v(s[2]) == v(a[2])) else 'identical angles but the sum has angle %r' % (_A(s),)
+    if abs(a[3] - b[3]) == 2 and gap == 0:
+        return add_opposite(vals, ra, rb, rs)
+    near = gap < mp.mpf('1e-9')
+    if near and a[3] == b[3]:
+        if (s[2], s[3]) in ((a[2], a[3]), (b[2], b[3])): return None
+    if near and abs(a[3] - b[3]) == 2:
+        if add_opposite(vals, ra, rb, rs) is None: return None
     return add_general_blades(vals, ra, rb, rs)
